@@ -99,15 +99,15 @@ class C18(Check):
                     if not t["rw"]:
                         users = [False] * k
                     t["users"] = users
-            out.append({"terms": terms, "groups_before": rng.choice([0, 0, 1, 5, 100])})
+            out.append({"terms": terms, "groups_before": rng.choice([0, 0, 1, 5, 100, 100, 1022, 1023, 1024, 1100, 5000])})
         return out
 
     def run_impl(self, case):
         from ebpfcat.ebpfcat import SimpleEtherCat, SyncGroup
         from ebpfcat.ethercat import SyncManager
         ec = SimpleEtherCat("verif0")
-        for _ in range(case["groups_before"]):
-            ec.get_fmmu_addr()
+        earlier = [ec.get_fmmu_addr() for _ in range(case["groups_before"])]
+        case["_earlier"] = earlier
         terms = [make_terminal(ec, s) for s in case["terms"]]
         # a terminal may be used by several devices with different access: it is written if ANY of them writes it
         # ("users": the devices' flags in the order in which the devices are listed; their disjunction is "rw")
@@ -181,6 +181,13 @@ class C18(Check):
         if need > 1500:
             return f"group needing {need} bytes (> 1500) was not rejected"
         assign, size, (_, frame), (_, ster) = o
+        # the logical window of this group must not be one handed to an earlier group of the same master
+        logical = [x[1] for row in assign for x in row if x is not None and x[1] is not None]
+        if logical:
+            win = min(logical) & ~0xfff
+            if win in {a & ~0xfff for a in case.get("_earlier", [])}:
+                return (f"the sync group got the logical window {win:#x}, which the {[a & ~0xfff for a in case['_earlier']].index(win) + 1}. of "
+                        f"{len(case['_earlier'])} earlier sync groups of this master already has")
         if size != need:
             return f"packet size {size}, layout needs {need}"
         if need == 16:
@@ -251,7 +258,7 @@ class C18(Check):
 
     def rule(self):
         return ("terminal sets of 1-12 terminals: FMMU / direct / Aerotech-style allocators, in/out sizes 0..800 (15% zero; 25% of sets sized to land near the "
-                "1500-byte limit), read-write flags (40% of the terminals are used by 2-3 devices with different access, the terminal is written if any of them writes), 0..100 earlier sync groups on the same master; non-trivial = at least two regions allocated")
+                "1500-byte limit), read-write flags (40% of the terminals are used by 2-3 devices with different access, the terminal is written if any of them writes), 0..5000 earlier sync groups on the same master (their logical windows must stay distinct); non-trivial = at least two regions allocated")
 
     def distribution(self, cases, observed):
         d = {"rejected": 0, "terminals": 0, "aero": 0, "direct": 0, "fmmu": 0}
